@@ -546,7 +546,8 @@ def c20(run):
                        "interleaving of edit/generate/receive with a persistent Bloom false positive chosen by TLC; invariant "
                        "NoStuck (quiet and nothing in flight => same changes); every (state, transition) replayed on real "
                        "documents and sync::State with the false positive forced through the hook, messages and states "
-                       "compared field by field; non-trivial = behaviour with a false positive")
+                       "compared field by field; sessions between long divergent histories with real filters must go quiet and "
+                       "converge (Trace_Wire SyncLong); non-trivial = behaviour with a false positive")
     if run.tier == "quick":
         mc_sync(run, "1, 2", 3, 1, 0, 0)
         gen_sync(run, [("1, 2", 2, 1, 0, 0, 40, 0), ("1, 2", 4, 1, 0, 0, 60, 60)], has_fp)
@@ -554,6 +555,11 @@ def c20(run):
         mc_sync(run, "1, 2", 3, 1, 0, 0)
         mc_sync(run, "1, 2", 2, 1, 0, 0, liveness=True)
         gen_sync(run, [("1, 2", 3, 1, 0, 0, 50, 0), ("1, 2", 5, 2, 0, 0, 80, 400)], has_fp)
+    # arbitrary starting histories: long ones (common prefix 0-43 changes, divergent suffixes up to 50 changes by several
+    # actors, local edits during the first rounds, real Bloom filters): quiet within 24 rounds, same heads and state
+    t = os.path.join(run.work, "roundtrip.ndjson")
+    wirex(["roundtrip", run.seed, sizes(run, 32, 600), t])
+    run.validate("Trace_Wire.tla", ["C20"], t, "synclong")
 
 
 def c22(run):
